@@ -2,6 +2,7 @@
 pub mod c01model;
 pub mod c02;
 pub mod observe;
+pub mod pipelines;
 pub mod problems;
 pub mod report;
 pub mod sniff;
